@@ -46,3 +46,8 @@ Check shift_in_shift_in : forall t n m k, shift_in m k (shift_in n k t) = shift_
 Theorem subst_shift_cancel : forall t ps k, subst ps k (shift_in 1 k t) = Ok t.
 Proof. exact subst_shift_cancel_lemma. Qed.
 Check subst_shift_cancel : forall t ps k, subst ps k (shift_in 1 k t) = Ok t.
+
+(** [Substitution::apply] ([SubstFolder]) agrees with [Subst::apply] whenever it does not panic. *)
+Theorem subst_apply_agrees : forall t ps k t', subst_apply ps k t = Ok t' -> subst ps k t = Ok t'.
+Proof. exact subst_apply_agrees_lemma. Qed.
+Check subst_apply_agrees : forall t ps k t', subst_apply ps k t = Ok t' -> subst ps k t = Ok t'.
